@@ -19,7 +19,7 @@ def controls(ctx, prop):
     sys.path.insert(0, os.path.join(os.path.dirname(os.path.dirname(os.path.abspath(__file__))), "selftest"))
     import run as st
     from mutants import BENIGN, MUTANTS
-    todo = [(m[0], [prop], m[2], m[3], m[4], m[5]) for m in MUTANTS + BENIGN if prop in m[1]]
+    todo = [(m[0], [prop], m[2], m[3], m[4], m[5]) for m in MUTANTS + BENIGN + st.seeded_variants() if prop in m[1]]
     rule = "CONTROL"
     ctx.rule(rule, what="mutation controls: every seeded edit of this property's corpus is reported, benign edits are not")
     missed = []
